@@ -114,11 +114,13 @@ def families(eng, tier, seed):
     # real chain metadata (concrete): the whole polkadot registry after de-duplication, and closed sub-registries of it
     P = polkadot()
     PSET = Settings(["compact_path ::parity_scale_codec::Compact", "bits_path ::scale_bits::DecodedBits", "codec_attrs", "compact_as_path ::parity_scale_codec::CompactAs", "derive_all ::parity_scale_codec::Encode", "derive_all ::parity_scale_codec::Decode"])
-    fams.append(make_family("polkadot-full-dedup", P, PSET, symbolic=False, dedup=True))
-    rnd = random.Random(seed + 1); roots = [i for i in user_ids(P)]; rnd.shuffle(roots)
-    for r0 in roots[:6 if tier == "quick" else 40]:
+    if tier == "thorough": fams.append(make_family("polkadot-full-dedup", P, PSET, symbolic=False, dedup=True))
+    rnd = random.Random(seed + 1); roots = [i for i in user_ids(P)]; rnd.shuffle(roots); npk = 0
+    for r0 in roots:
         sub, _ = restrict(P, [r0])
-        if len(sub) <= 400: fams.append(make_family("polkadot-closure-of-%d" % r0, sub, PSET, symbolic=False, dedup=True))
+        if 8 <= len(sub) <= (60 if tier == "quick" else 400):
+            fams.append(make_family("polkadot-closure-of-%d" % r0, sub, PSET, symbolic=False, dedup=True)); npk += 1
+        if npk >= (5 if tier == "quick" else 40): break
     # retargeting: one field at a time
     for name, reg in C.items():
         if name in SKIP or name in ("versions", "assoc_skip", "assoc_noskip", "assoc_same"): continue
